@@ -160,7 +160,11 @@ class SymRat:
 
     def __neg__(self): return _mk(-self.z, self.flav)
     def __pos__(self): return self
-    def __abs__(self): return _mk(z3.If(self.z >= 0, self.z, -self.z), self.flav)
+    def __abs__(self):
+        # split on the sign instead of an if-then-else term (keeps rounding queries linear)
+        if E.branch(self.z >= 0):
+            return self
+        return _mk(-self.z, self.flav)
 
     def __pow__(self, n):
         if isinstance(n, SymInt):
